@@ -44,7 +44,29 @@ pub struct OPre {
 }
 
 pub fn gen_opre(c: &OCfg) -> OPre {
-    let p = fub::gen_pre(c.cap, false);
+    gen_opre_with(c, fub::gen_pre(c.cap, false))
+}
+
+/// narrow pre-state for the deep `FuturesOrdered` stack: every slot holds a
+/// future, exactly one of them (any) is queued; queue places, the parked
+/// outputs, registration and ghost flags stay arbitrary
+pub fn gen_opre_narrow(c: &OCfg) -> OPre {
+    let mut p = fub::fixed_pre(c.cap, false);
+    let mut i = 0;
+    while i < c.cap {
+        p.occ[i] = true;
+        i += 1;
+    }
+    p.filled = c.cap;
+    p.free_head = c.cap;
+    p.qlen = 1;
+    p.q[0].slot = nd::below(c.cap as u8) as usize;
+    p.reg = nd::flag();
+    p.reg_t = nd::below(2) as usize;
+    gen_opre_with(c, p)
+}
+
+fn gen_opre_with(c: &OCfg, p: Pre) -> OPre {
     fub::gen_ghost(&p, 0);
     let n_parked = c.max_parked;
     let len = p.filled + n_parked;
